@@ -13,6 +13,8 @@ def run(rep):
     # within one instance: simultaneously suspended queries share no variable through a stored fact (C13's contracts)
     from . import enginep
     enginep.engine_deductive(rep, enginep.COPY_FUNS + ['engine.YP.assert_fact'])
+    # "create atoms": the atom table is per instance, private to atom(), and atom() changes nothing but its own key
+    enginep.atom_table_deductive(rep)
     q = rep.tier == 'quick'
     fw.standin(rep, 's_init.py', ['run'], 'ground check: two engines share no dict object; clear() creates fresh ones', 'single configuration')
     if os.path.exists(os.path.join(fw.VERIF, 'standin', 's_c04.py')):
